@@ -242,7 +242,6 @@ Proof.
   change (flip_rank_sq s =? flip_rank_sq (home_rank (turn p) * 8 + 4))
     with (phi sym_v s =? phi sym_v (home_rank (turn p) * 8 + 4)).
   rewrite (phi_eqb sym_v). destruct (s =? home_rank (turn p) * 8 + 4); [|constructor].
-  change (castle_moves (mirror_v p) (opp (turn p))) with (castle_moves (mirror_v p) (opp (turn p))).
   rewrite castle_moves_v. apply Permutation_refl.
 Qed.
 
